@@ -266,7 +266,6 @@ Proof.
   assert (byte_lo r <= byte_hi r) by (unfold byte_lo, byte_hi, r_end, r_start; lia). lia.
 Qed.
 
-Set Default Timeout 40.
 (** the big-endian value of the buffer after a lane write: the field is replaced, every other
     bit stays *)
 Lemma lane_write_value b r v :
